@@ -105,6 +105,27 @@ def itolClass (path flag : String) (own : String := "pdf") (hidden : List String
   if path == "gotree download itol" && flag == "format" && own == "pdf" && hidden == ["newick"]
   then "class=HelpShowsInheritedFlag " else ""
 
+/-- recorded finding `FormatAliasOverrides` (F87): `--input-format` (`-f`) of the `reformat` commands is bound to
+    the variable of the root's persistent `--format`; the documented default of one of them given
+    after a non-default value of the other overrides it.  Table level: that pair, under `gotree reformat`. -/
+def aliasClass (path flag : String) (aliasFlags : List String) : String :=
+  if (path == "gotree reformat" || path.startsWith "gotree reformat ") &&
+     ((flag == "input-format" && aliasFlags == ["format"]) || (flag == "format" && aliasFlags == ["input-format"]))
+  then "class=FormatAliasOverrides " else ""
+
+/-- … end to end: a `reformat` command, the compared flag is one of the two, the template gives the
+    OTHER one a value that is not the default, and the explicit run adds the documented default "newick" -/
+def aliasClassE2E (path flag : String) (a0 a1 : List String) : String :=
+  let one (fl : String) : Bool :=
+    let givesOther : Bool :=
+      if fl == "input-format" then a0.any fun x => x == "--format" || (x.startsWith "--format=" && x != "--format=newick")
+      else a0.any fun x => x == "-f" || x == "--input-format" || (x.startsWith "--input-format=" && x != "--input-format=newick")
+    givesOther && a1.contains ("--" ++ fl ++ "=newick") && !(a0.contains ("--" ++ fl ++ "=newick"))
+  if (path == "gotree reformat" || path.startsWith "gotree reformat ") &&
+     ((flag == "input-format" && one "input-format") || (flag == "format" && one "format") ||
+      (flag == "*" && (one "input-format" || one "format")))   -- every omitted option spelled out at once
+  then "class=FormatAliasOverrides " else ""
+
 /-- `gotree rename`: does the model of its option handling (Model/C19Rename) predict the error class
     seen in the outcome?  `none` = the arguments were not understood by the little parser. -/
 def renameAgrees (args : List String) (outcome : String) : Option Bool :=
@@ -152,7 +173,7 @@ def handle (op : String) (f : List String) : Verdict :=
       -- inherited flag, or its default is not the zero value the variable would hold anyway
       let zero := isZeroDefault typ dflt
       let tags := tagIf (!zero || !ps.isEmpty || !sh.isEmpty) "nontrivial" ++ [typeTag typ] ++ tagIf p "persistent" ++ tagIf (!p) "local" ++
-        tagIf (!ps.isEmpty) "shared-variable" ++ tagIf (!(peersOK r ps)) "peer-conflict" ++ tagIf (short != "") "shorthand" ++
+        tagIf (!ps.isEmpty) "shared-variable" ++ tagIf (!(peersOK r ps)) "peer-conflict" ++ tagIf (!((aliasesOf (ps ++ [r]) r).isEmpty)) "alias-in-command" ++ tagIf (short != "") "shorthand" ++
         tagIf (claim != "") "usage-claims-default" ++ tagIf (!sh.isEmpty) "shadows-inherited" ++ tagIf (!(shadowOK r sh)) "shadow-default-differs" ++
         tagIf (dflt == "" || dflt == "false" || dflt == "0" || dflt == "[]") "zero-default"
       if !(rowOK r) then
@@ -165,6 +186,15 @@ def handle (op : String) (f : List String) : Verdict :=
         -- the pairs, by the C19.table case; the innocent rows of the variable carry the tag only.
         ⟨.oracle, tags, "variable bound with another default elsewhere: " ++ r.show ++ " vs " ++
           "; ".intercalate ((ps.filter fun q => q.default != r.default).map Reg.show)⟩
+      else if !((aliasesOf (ps ++ [r]) r).isEmpty) then
+        -- the command sees another option that writes the same variable: given first with another value, it is
+        -- overridden by the documented default of this one (the model says so: `atRun` with the alias before the default)
+        let al := aliasesOf (ps ++ [r]) r
+        let q := al.headD r
+        let overridden := reads (atRun (ps ++ [r]) [(q, dflt ++ "'"), (r, dflt)]) v != reads (atRun (ps ++ [r]) [(q, dflt ++ "'")]) v
+        ⟨.oracle, tags, aliasClass path flag (al.map (·.flag)) ++ path ++ " accepts two options that write one variable: " ++ r.show ++ " and " ++
+          "; ".intercalate (al.map Reg.show) ++ " — the documented default of --" ++ flag ++ " given after another value of --" ++ q.flag ++
+          " overrides it" ++ (if overridden then " (model: the variable then differs from the run without it)" else "")⟩
       else if !(shadowOK r sh) then
         ⟨.oracle, tags, itolClass path flag dflt (sh.map (·.default)) ++ "the help of " ++ path ++ " lists, for --" ++ flag ++ ", the inherited option of the same name (cobra 1.5 LocalFlags/InheritedFlags), which documents another default: " ++
           r.show ++ " is hidden behind " ++ "; ".intercalate (sh.map Reg.show)⟩
@@ -192,6 +222,11 @@ def handle (op : String) (f : List String) : Verdict :=
           "; ".intercalate (st.map Reg.show) ++ "], " ++ toString cs.length ++ " conflicting pairs [" ++
           "; ".intercalate (cs.map showPair) ++ "], commands whose registration changes another command: [" ++
           ", ".intercalate iso ++ "]")⟩
+      else if !(noAliasInCommand t) then
+        let off := t.filter fun r => !((aliasesOf t r).isEmpty)
+        let cls := if off.all fun r => aliasClass r.path r.flag ((aliasesOf t r).map (·.flag)) != "" then "class=FormatAliasOverrides " else ""
+        ⟨.oracle, tags, clip 3000 (cls ++ "commands that accept two options writing one variable (the documented default of one overrides a value given through the other): [" ++
+          "; ".intercalate (off.map fun r => r.show ++ " ~ " ++ "; ".intercalate ((aliasesOf t r).map Reg.show)) ++ "]")⟩
       else if !(shadowAgree t) then
         let sc := shadowConflicts t
         let cls := match sc with
@@ -254,7 +289,7 @@ def handle (op : String) (f : List String) : Verdict :=
         ⟨.oracle, tags, clip 1500 (path ++ " fails when run with its documented defaults (template " ++ tmpl ++ ", args " ++
           " ".intercalate a0 ++ "): " ++ (clip 600 o0).quote)⟩
       else if !(e2eOK o0 o1) then
-        ⟨.oracle, tags, clip 1500 (knownClass path flag o0 o1 a0 a1 ++ path ++ " --" ++ flag ++ ": omitted differs from explicit default " ++ dflt.quote ++
+        ⟨.oracle, tags, clip 1500 (knownClass path flag o0 o1 a0 a1 ++ aliasClassE2E path flag a0 a1 ++ path ++ " --" ++ flag ++ ": omitted differs from explicit default " ++ dflt.quote ++
           "; args " ++ " ".intercalate a0 ++ " | " ++ " ".intercalate a1 ++
           "; omitted → " ++ (clip 300 o0).quote ++ "; explicit → " ++ (clip 300 o1).quote)⟩
       else if renameTie == some false then
